@@ -136,6 +136,16 @@ PROPS["C16"] = {
     "assumptions": ["multi-host sub-path services are not generated (the statement says 'its host')"],
 }
 
+PROPS["C13"] = {
+    "test": "TestC13", "level": "exploration", "registered": True, "engine": "sim",
+    "shards_quick": 8, "shards_thorough": 16, "timeout": 900,
+    "technique": "runtime monitor: byte-level comparison of the client's send log with the echo target's receive log (and vice versa) through the full handler chain",
+    "level_text": "Generated requests (10 methods incl. unknown ones, paths over pchar with valid %XX escapes, encoded slashes, repeated and trailing slashes, the prefix as a later segment and the bare prefix, raw queries with unparseable pairs, header sets of 0-30 headers with repeated names, empty values, obs-text and 8 KiB values, bodies to 256 KiB with either framing, client-supplied X-Forwarded-*, X-Request-ID, X-Request-Start, over plain and TLS connections) are sent as raw bytes through the real server chain to a raw echo target that records exactly what it received and answers a generated response (22 statuses, multi-valued headers, bodies to 200 KB, three framings, gzip only if the request it received asks for it). Oracle: equality of method, path (less the literal prefix when stripping), raw query, Host, every end-to-end header's value list, body; forwarding headers per the stated policy; X-Request-ID kept or fresh and unique; status, every target header's value list and body bytes on the way back; no header added.",
+    "level_note": "Trusted: raw reader/writer of the harness. Excluded by rule: hop-by-hop headers, header-name case, Content-Length vs chunked framing, optional whitespace around header values, headers net/http adds when the target sent none (Date, Content-Type, Content-Length). Harness stdlib is go1.26.8 (production go1.24.2).",
+    "rule": "a class is (service kind, method, escapes in path, query present, body present, chunked, status class, response framing)",
+    "assumptions": ["paths within RFC 3986 pchar + valid escapes; absolute-form targets and OPTIONS * not generated"],
+}
+
 ENGINES = [
     {"name": "sim", "path": "/verif/harness (world_test.go)", "kind_free_text": "real internal/server code in a testing/synctest bubble (virtual time) on an in-memory network with scripted fake targets and hook-placed delays; monitors judge recorded events", "serves_properties": []},
 ]
